@@ -186,10 +186,20 @@ func VerifC12Compact(h *verifh.H) {
 		h.RecycleIteratorKeys()
 	}
 	before := vObserve(h, hub, times)
+	// a reader that has caught up holds the token of the end of the feed
+	endFeed, err := ds.GetChanges(0, 0, false)
+	h.Assert(err == nil, "feed")
+	endTok := endFeed.NextToken
 	thr := []int{1, 2, 100000}[h.Choice("threshold", h.Param("thresholds", 2))]
 	strategy := &deduplicationStrategy{counts: make(map[string]int), changeBuffer: make(map[[24]byte]byte), flushAfter: thr}
 	worker := NewCompactor(hub.Store, hub.Dsm, hub.Env.Logger)
 	h.Assert(worker.compact("d", strategy) == nil, "compaction succeeds")
+	// ... and is handed nothing it has seen before, whether or not compaction removed the tail of the log
+	for _, latest := range []bool{false, true} {
+		again, err := ds.GetChanges(endTok, 0, latest)
+		h.Assert(err == nil && len(again.Entities) == 0, "a reader resuming from the end token it got before compaction is handed nothing :: latestOnly="+server.VB(latest)+" got="+server.VItoa(len(again.Entities)))
+		h.Assert(err != nil || again.NextToken >= endTok, "the token of a caught-up reader does not move backwards")
+	}
 	after := vObserve(h, hub, times)
 
 	h.Assert(after.list == before.list, "latest view unchanged by compaction :: before="+before.list+" after="+after.list)
